@@ -334,6 +334,12 @@ outer:
 
 	// No better solution than allocate at the end of the table.
 	base = a.size - min
+	for a.usedBase.Get(a.delta + base) {
+		// Note: two lines cannot share a base even if their cells do not overlap.
+		base++
+		a.taken.Grow(base + max + 1)
+		a.usedBase.Grow(a.delta + base + 1)
+	}
 	return
 }
 
